@@ -496,3 +496,11 @@ Example C17_ex_rotate_dump_fails_backup :
      = mkout (mkfs (Some Partial) (Some Orig) None None)
              [Exists Bak; Remove Bak; Copy2 Target Bak; OpenTrunc Target; Dump Target true] SCrash.
 Proof. split; reflexivity. Qed.
+
+(* Every remaining statement of this file, so that none is left unaudited. *)
+Print Assumptions C17_merge_backup_of_nothing_refuted.
+Print Assumptions C17_no_backup_no_promise.
+Print Assumptions C17_no_backup_second_fault_loses.
+Print Assumptions C17_finite_domain_check.
+Print Assumptions C17_rotate_no_backup_refuted.
+Print Assumptions C17_close_no_backup_refuted.
